@@ -382,7 +382,8 @@ class Charge:
         """Convert into a `DataArray` object."""
         import xarray as xr
 
-        data_2d: np.ndarray = self.array
+        # Note: A copy is needed, 'self.array' is modified in place by 'add_charge_array'
+        data_2d: np.ndarray = self.array.copy()
         num_rows, num_cols = data_2d.shape
 
         rows = xr.DataArray(
